@@ -766,8 +766,12 @@ class Interp:
         cur = self.eval(_load(s.target), f)
         rhs = self.eval(s.value, f)
         v = self.binop(type(s.op).__name__, cur, rhs, inplace=True)
-        if v is not _INPLACE_DONE:
-            self.assign(s.target, v, f)
+        if v is _INPLACE_DONE:
+            # python always stores the result back (x[i] op= y is tmp = x[i]; tmp op= y; x[i] = tmp)
+            v = cur
+            if isinstance(s.target, ast.Name):
+                return
+        self.assign(s.target, v, f)
 
     def s_Return(self, s, f):
         raise _Return(self.eval(s.value, f) if s.value is not None else None)
@@ -951,6 +955,10 @@ class Interp:
         from .models import SRange, SEnumerate, SZip, SKeysView
         if isinstance(it, (list, tuple, str, bytes, range, dict, set, frozenset)):
             return ("concrete", list(it))
+        import numpy as _np
+        if isinstance(it, _np.ndarray):
+            return ("concrete", [x.item() if isinstance(x, _np.generic) and not isinstance(x, _np.str_) else
+                                 (str(x) if isinstance(x, _np.str_) else x) for x in it])
         if isinstance(it, (types.GeneratorType, enumerate, zip, reversed, map, filter)) \
                 or type(it).__name__ in ("dict_keys", "dict_values", "dict_items", "list_iterator"):
             return ("concrete", list(it))
@@ -1453,6 +1461,14 @@ class Interp:
                     raise PyRaise(type(ex), ex.args, node)
             ref = self.funcref_for(fn, f)
             return self.call_funcref(ref, args, kwargs, f)
+        if mod.startswith("dclab") and not isinstance(fn, (type, types.FunctionType, types.MethodType)) \
+                and callable(fn):
+            # compiled (Cython) dclab function: only a contract can stand for it
+            nm = getattr(fn, "__name__", "")
+            c = f.unit.callees.get(f"{mod}:{nm}") or f.unit.callees.get(nm)
+            if c is not None:
+                return c(self, *args, **kwargs)
+            raise Unsupported(f"call to compiled dclab function {mod}:{nm} has no contract")
         if isinstance(fn, type) and mod.startswith("dclab"):
             key = f"{mod}:{fn.__qualname__}"
             c = f.unit.callees.get(key) or f.unit.callees.get(fn.__qualname__)
